@@ -24,18 +24,25 @@ def handle_ast(rep, res, afs, extra, sc, prop):
 def run(tier, rep):
     thorough = tier == 'thorough'
     K = 9 if thorough else 7
+    KB = 6 if thorough else 5
     with Scratch() as sc:
-        fs = lr.files(sc, lrTreeK=K)
+        fs = lr.files(sc, lrTreeK=K, lrBodyK=KB)
         res = run_gosym(lr.cfg(fs, 'harnessC11Generic', tier), sc, 'generic', timeout=4 * 3600)
         merge_gosym(rep, res, 'generic tree: ParseAndBuildAST vs reference derivation tree, every sequence of <= %d tokens' % K)
         lr.handle(rep, res, fs, sc, 'C11')
-        afs, extra = lr.ast_files(sc, astK=K)
+        res = run_gosym(lr.cfg(fs, 'harnessC11GenericBody', tier), sc, 'genericbody', timeout=4 * 3600)
+        merge_gosym(rep, res, 'generic tree: one rule `grammar IDENT IDENT = <body> ;` with every body of <= %d tokens' % KB)
+        lr.handle(rep, res, fs, sc, 'C11')
+        afs, extra = lr.ast_files(sc, astK=K, astBodyK=KB, lrBodyK=KB)
         res = run_gosym(lr.ast_cfg(afs, extra, 'harnessC11Typed', tier), sc, 'typed', timeout=4 * 3600)
         merge_gosym(rep, res, 'typed tree: ast.Parse (real actions) vs independent builder, every sequence of <= %d tokens' % K)
+        handle_ast(rep, res, afs, extra, sc, 'C11')
+        res = run_gosym(lr.ast_cfg(afs, extra, 'harnessC11TypedBody', tier), sc, 'typedbody', timeout=4 * 3600)
+        merge_gosym(rep, res, 'typed tree: one rule with every body of <= %d tokens' % KB)
         handle_ast(rep, res, afs, extra, sc, 'C11')
         rep.assumptions += [
             'token kinds symbolic over the 22 kinds; lexemes are distinct placeholders (predefined names for PREDEF), positions distinct',
             'parser.New is presented renamed by the overlay so that ast.Parse reads from the stub lexer (generated from the current parser.go on every run)',
             'NOT decided: the round trip through printed EBNF text, and "the grammar obtained from the typed tree is the one emerge derives directly" (the language-level version of that clause is C01)',
-            'bound: %d tokens' % K,
+            'bounds: %d tokens (arbitrary specifications), %d body tokens (one-rule specifications, 5 fixed tokens around them)' % (K, KB),
         ]
